@@ -99,7 +99,8 @@ type v19H struct {
 	staleAfter     int
 	livelock       bool
 	timeoutsQueued bool // a read deadline has expired since the reader was last (re-)armed
-	cycles         int  // read deadline expired and was cleared/extended again, reader re-armed
+	everExpired    bool
+	cycles         int // read deadline expired and was cleared/extended again, reader re-armed
 
 	log  []string
 	fail string
@@ -140,6 +141,19 @@ func (h *v19H) history() string {
 
 func (h *v19H) expiredLocked() bool {
 	return !h.rdl.IsZero() && !time.Now().Before(h.rdl)
+}
+
+// noteExpiryLocked derives "a read deadline has been in force past its instant" from the virtual
+// clock. An expiry, once reached, lasts until the deadline value is changed, so it is enough to
+// look (a) immediately before every change of h.rdl, (b) at every eligibility decision and
+// (c) after every op: no expiry interval can fall between those looks. h.mu must be held.
+func (h *v19H) noteExpiryLocked() bool {
+	if h.expiredLocked() {
+		h.timeoutsQueued = true
+		h.everExpired = true
+		return true
+	}
+	return false
 }
 
 func (h *v19H) signalResume() {
@@ -363,6 +377,7 @@ func (h *v19H) inject(role, size int, atHop, assertNow bool) {
 	default:
 		s = h.socks[n-1]
 	}
+	h.noteExpiryLocked()
 	inj := &v19Inj{id: h.seq, sock: s.id, role: name, at: h.now()}
 	if s.closed {
 		if name != "older" && !h.closeCalled {
@@ -840,6 +855,7 @@ func v19RunHistory(outer *testing.T, c *v19Case) (fail string, info v19Info) {
 			info.failedListens = h.listenFails
 			info.staleAfterClose = h.staleAfter
 			info.livelock = h.livelock
+			info.expiredSeen = h.everExpired
 			for _, inj := range h.injected {
 				if inj.role == "previous" && inj.received {
 					info.injPrev++
@@ -958,17 +974,18 @@ func v19RunHistory(outer *testing.T, c *v19Case) (fail string, info v19Info) {
 			closedBefore := h.closeReturned
 			socksBefore := len(h.socks)
 			openBefore := fmt.Sprint(h.openLocked())
-			expiredBefore := h.expiredLocked()
-			if expiredBefore {
-				info.expiredSeen = true
-				h.timeoutsQueued = true
-			}
+			h.noteExpiryLocked()
 			tooManyHops := len(h.listenTimes) > 26
 			h.logf("op %v", o)
 			h.mu.Unlock()
 			if o.atHop && !closedBefore && !tooManyHops {
 				sleepToHop(0)
 			}
+			// the @hop sleep may have carried the clock past the read deadline
+			h.mu.Lock()
+			h.noteExpiryLocked()
+			notArmed := h.timeoutsQueued
+			h.mu.Unlock()
 			switch o.kind {
 			case v19OpAdvance:
 				switch {
@@ -1063,10 +1080,15 @@ func v19RunHistory(outer *testing.T, c *v19Case) (fail string, info v19Info) {
 					call()
 				} else if !tm.IsZero() && !time.Now().Before(tm) {
 					h.mu.Lock()
+					h.noteExpiryLocked() // the value being replaced may have expired meanwhile
 					h.rdl = tm
+					h.noteExpiryLocked()
 					h.mu.Unlock()
 					call()
 				} else {
+					h.mu.Lock()
+					h.noteExpiryLocked() // the value being replaced may have expired meanwhile
+					h.mu.Unlock()
 					call()
 					h.mu.Lock()
 					h.rdl = tm
@@ -1090,11 +1112,11 @@ func v19RunHistory(outer *testing.T, c *v19Case) (fail string, info v19Info) {
 					_ = conn.LocalAddr()
 				}
 			case v19OpRead:
-				if !c.free && !expiredBefore {
+				if !c.free && !notArmed {
 					readQueued(o.n, false)
 				}
 			case v19OpDrain:
-				if !c.free && !closedBefore && !expiredBefore {
+				if !c.free && !closedBefore && !notArmed {
 					readQueued(0, true)
 					// everything injected on a live socket at a quiescent point has been queued by now
 					h.mu.Lock()
@@ -1112,11 +1134,7 @@ func v19RunHistory(outer *testing.T, c *v19Case) (fail string, info v19Info) {
 			synctest.Wait()
 			where := "after " + o.String()
 			h.mu.Lock()
-			expiredNow := h.expiredLocked()
-			if expiredNow {
-				info.expiredSeen = true
-				h.timeoutsQueued = true
-			}
+			expiredNow := h.noteExpiryLocked()
 			rearm := !expiredNow && h.timeoutsQueued && !closedBefore
 			h.mu.Unlock()
 			if rearm {
